@@ -230,6 +230,16 @@ func idOf(m map[string]int64, k string) int64 {
 	return v
 }
 
+// registeredKey: the Pubkey of the first account validator v has registered for exactly (chain, address string).
+func (h *qhist) registeredKey(v int, chain, addr string) ([]byte, bool) {
+	for _, row := range h.reg[v] {
+		if row.chain == chain && row.addr == addr {
+			return row.key, true
+		}
+	}
+	return nil, false
+}
+
 func (h *qhist) keyAddr(i int) common.Address { return crypto.PubkeyToAddress(h.keys[i].PublicKey) }
 
 func (h *qhist) valIdx(a sdk.ValAddress) int64 {
@@ -383,6 +393,9 @@ func (h *qhist) violate(id, what string) {
 			return
 		}
 		what += "; ReassignValidator is now reachable from " + strings.Join(liveReassignCallers, ", ")
+	}
+	if !violationBudget(h.run, id) {
+		return
 	}
 	h.run.Violate(id, what, map[string]any{"part": "queue", "history": h.replay})
 }
@@ -571,7 +584,26 @@ func (h *qhist) opSign() {
 	addr := spell(r, h.keyAddr(r.Intn(len(h.keys)))) // not registered by v (probably)
 	signer := r.Intn(len(h.keys))
 	how := "unregistered-address"
-	if named != nil && r.Intn(12) > 0 {
+	// the account the validator registered under the OTHER chain reference, named for a message of this chain and
+	// signed with that account's key (a pigeon still running with the configuration of the other chain / of before a
+	// rotation on this chain only): GetSigningKey must not find it
+	var other *acctRow
+	for i := range h.reg[v] {
+		if h.reg[v][i].chain != chain {
+			other = &h.reg[v][i]
+		}
+	}
+	if other != nil && r.Intn(7) == 0 {
+		addr, how = other.addr, "other-chain-account"
+		for i := range h.keys {
+			if hex.EncodeToString(h.keyAddr(i).Bytes()) == hex.EncodeToString(other.key) {
+				signer = i
+			}
+		}
+		if named != nil && named.addr == other.addr {
+			how = "other-chain-account(same-address-here)"
+		}
+	} else if named != nil && r.Intn(12) > 0 {
 		addr = named.addr
 		how = "registered"
 		for i := range h.keys {
@@ -624,8 +656,9 @@ func (h *qhist) opSign() {
 	if what == "junk" && r.Intn(2) == 0 {
 		sig = sig[:r.Intn(65)]
 	}
-	// the key registered right now for (v, chain, addr): recorded when the signature is accepted
-	regNow, _ := h.e.vs.GetSigningKey(h.e.ctx, h.e.vals[v], "evm", chain, addr)
+	// the key registered right now for (v, chain, addr), from the registrations the harness made (first exact match, as
+	// a list scan gives it) - NOT asked from the code under test; recorded when the signature is accepted
+	regNow, regFound := h.registeredKey(v, chain, addr)
 	err = h.e.cons.AddMessageSignature(h.e.ctx, h.e.vals[v], []*consensustypes.ConsensusMessageSignature{
 		{Id: id, QueueTypeName: turnstoneQueue(chain), Signature: sig, SignedByAddress: addr}})
 	c := classOf(err)
@@ -634,6 +667,9 @@ func (h *qhist) opSign() {
 	}
 	if err == nil {
 		h.regAt[fmt.Sprintf("%d/%d", id, v)] = hex.EncodeToString(regNow)
+		if !regFound {
+			h.regAt[fmt.Sprintf("%d/%d", id, v)] = "(validator has no account " + addr + " registered for " + chain + ")"
+		}
 	}
 	h.run.Count("op", "sign")
 	h.run.Count("sign-what", what+"/"+how)
@@ -739,7 +775,7 @@ func (h *qhist) opReRegister() {
 	r := h.run.Rng
 	v := r.Intn(nVals)
 	var rows []acctRow
-	switch r.Intn(5) {
+	switch r.Intn(6) {
 	case 0: // somebody else's key / address: collision expected
 		o := (v + 1 + r.Intn(nVals-1)) % nVals
 		if len(h.reg[o]) > 0 {
@@ -748,6 +784,15 @@ func (h *qhist) opReRegister() {
 		rows = append(rows, h.row(qchains[r.Intn(2)], r.Intn(len(h.keys))))
 	case 1: // same again
 		rows = h.reg[v]
+	case 2: // rotate the key of one chain only: the account of the other chain stays as it is
+		c := qchains[r.Intn(2)]
+		for _, row := range h.reg[v] {
+			if row.chain != c {
+				rows = append(rows, row)
+			}
+		}
+		rows = append(rows, h.row(c, r.Intn(len(h.keys))))
+		h.run.Count("op", "rotate-one-chain")
 	default: // a (probably) fresh key on one or both chains
 		for _, c := range qchains {
 			if r.Intn(3) > 0 {
